@@ -1,4 +1,6 @@
 import Firebolt.Model.Recovery
+import Firebolt.Generated.Source
+import Firebolt.Expected.Source
 /-!
 # C07 — Parallel recovery emits the whole requested window and nothing outside it
 
@@ -224,5 +226,17 @@ example :
     emitsOf (run s (polls 0 4)).2 = [⟨0, 10, true⟩, ⟨0, 11, true⟩, ⟨0, 12, true⟩, ⟨0, 13, true⟩] ∧
     (run s (polls 0 5)).1.tracker.get? 0 = some ([] : Tracker.Snap) := by
   decide
+
+
+/-! ### the functions this model was transcribed from are unchanged (regenerated from /repo on every run) -/
+theorem source_rcHandleEvents : GeneratedSrc.rcHandleEvents = ExpectedSrc.rcHandleEvents := by rfl
+theorem source_rcProcessEvent : GeneratedSrc.rcProcessEvent = ExpectedSrc.rcProcessEvent := by rfl
+theorem source_rcProcessError : GeneratedSrc.rcProcessError = ExpectedSrc.rcProcessError := by rfl
+theorem source_rcRecoverSingleEvent : GeneratedSrc.rcRecoverSingleEvent = ExpectedSrc.rcRecoverSingleEvent := by rfl
+theorem source_kcProcessEvent : GeneratedSrc.kcProcessEvent = ExpectedSrc.kcProcessEvent := by rfl
+theorem source_setActivePartitionMap : GeneratedSrc.setActivePartitionMap = ExpectedSrc.setActivePartitionMap := by rfl
+
+theorem source_refreshAssignments : GeneratedSrc.refreshAssignments = ExpectedSrc.refreshAssignments := by rfl
+theorem source_partitionAssignmentsChanged : GeneratedSrc.partitionAssignmentsChanged = ExpectedSrc.partitionAssignmentsChanged := by rfl
 
 end Firebolt.C07
